@@ -172,3 +172,13 @@ Theorem C18_frame : forall (ops : list (who * Z)) (c : list Z),
                 (ops_of MB ops = [] -> b = c) /\ (ops_of MA ops = [] -> a = c).
 Proof. exact run_two_frame. Qed.
 Print Assumptions C18_frame.
+
+(* ---- what the path held before.  A history = any list of ArrayMorphWriter.write(data, path) calls on ONE path (documents
+   or single morphologies), each followed by a load, starting from any file content: every step gives exactly what it
+   gives on a fresh path (the writer opens with mode "w": Inst_C18.static_ok, regenerated from writers.py on every run),
+   so C18_model_roundtrip / C18_morphology_roundtrip apply to every step.  The correspondence run writes such histories
+   (different documents, and an edited document with the same ids) to one path and compares each load. *)
+Theorem C18_file_history : forall (V : Type) (xs : list (hitem V)) (file : fstore V),
+    roundtrip_history V file xs = map (roundtrip_item V) xs.
+Proof. exact history_independent. Qed.
+Print Assumptions C18_file_history.
